@@ -35,6 +35,7 @@ def choose_group(rng, H, sh, profile, pos):
     """returns a list of stimuli (one group, applied without letting the loop run in between)"""
     group = []
     _sync(H, sh)
+    begun = [id(p) for p in sh.pending_frags]      # frames the peer had begun before this group
     if rng.random() < 0.12 and not H.closed_seen:
         # race templates: two stimuli inside one loop iteration
         cands = []
@@ -62,13 +63,26 @@ def choose_group(rng, H, sh, profile, pos):
             group = rng.choice(cands)
             for s in group:
                 note(sh, H, s)
+            abandon_after_cancel(rng, sh, group, begun)
             return group
     for _ in range(rng.choice([1, 1, 1, 2, 2, 3])):
         s = choose_one(rng, H, sh, profile)
         if s is not None:
             note(sh, H, s)
             group.extend(fragmented(rng, sh, s))
+    abandon_after_cancel(rng, sh, group, begun)
     return group
+
+
+def abandon_after_cancel(rng, sh, group, begun):
+    """a peer that is told CANCEL in the middle of a fragmented frame it had begun may stop there: the rest of the frame never
+    arrives (the partial frame must not stay in the reassembly cache of the cancelled stream). A frame the peer begins after the
+    cancel (crossing it in flight) is always finished: the library's own sender never abandons a frame."""
+    for s in group:
+        if s['op'] in ('SCN', 'FCN'):
+            i = sh.info.get(s.get('oid'))
+            if i is not None and any(p['frame']['sid'] == i['sid'] and id(p) in begun for p in sh.pending_frags) and rng.random() < 0.6:
+                sh.pending_frags = [p for p in sh.pending_frags if not (p['frame']['sid'] == i['sid'] and id(p) in begun)]
 
 
 FRAGMENTABLE = ('REQUEST_RESPONSE', 'REQUEST_FNF', 'REQUEST_STREAM', 'REQUEST_CHANNEL', 'PAYLOAD')
@@ -166,6 +180,12 @@ def choose_one(rng, H, sh, profile):
             w((1, lambda oid=oid: {'op': 'SCN', 'oid': oid}))
         if k == 'rrReq':
             w((2 if not i['peer_term'] and not i['we_cancel'] else 0.3, lambda oid=oid: {'op': 'FCN', 'oid': oid}))
+        if any(p['frame']['sid'] == i['sid'] for p in sh.pending_frags) and not i['we_cancel']:
+            # the peer is in the middle of a fragmented frame for this stream: cancelling now leaves a partial frame behind
+            if k == 'rrReq':
+                w((8, lambda oid=oid: {'op': 'FCN', 'oid': oid}))
+            elif k in ('stReq', 'chReq') and i['subscribed'] or (k == 'chResp' and i['has_sub']):
+                w((8, lambda oid=oid: {'op': 'SCN', 'oid': oid}))
         # application producing
         if k in ('stResp', 'chResp', 'chReq') and i['has_pub'] and i['subscribed'] and (not i['pub_term'] or hostile) and not (i['peer_cancel'] and not hostile):
             w((4, lambda oid=oid: {'op': 'PN', 'oid': oid, 'data': sh.data(rng, rng.choice([0, 1, 1, 2])), 'complete': rng.random() < 0.2}))
